@@ -1,6 +1,6 @@
 //! C17 — shutdown is graceful and complete.
 
-use crate::c16::{run_h1, run_h2, ClientResult, ClientSpec, Kind, Point, Proto, BIG_SIZE};
+use crate::c16::{run_h1_with, run_h2, ClientResult, ClientSpec, Kind, Point, Proto, BIG_SIZE};
 use crate::core::*;
 use crate::dynapi::start_server;
 use crate::http1;
@@ -29,6 +29,8 @@ pub enum ConnState {
 
 #[derive(Clone, Debug, Serialize, Deserialize)]
 pub struct ShutdownScenario {
+    #[serde(default)]
+    pub tls: bool,
     pub detached: bool,
     pub conns: Vec<ConnState>,
     /// delay (ms) after close() was called before each handler is released
@@ -48,8 +50,17 @@ fn conn_state() -> impl Strategy<Value = ConnState> {
 }
 
 fn shutdown_scenario(max: usize) -> impl Strategy<Value = ShutdownScenario> {
-    (any::<bool>(), proptest::collection::vec(conn_state(), 1..=max), proptest::collection::vec(0u8..120, 8), 1u8..4, 1u8..5)
-        .prop_map(|(detached, conns, release_after_ms, waiters, server_workers)| ShutdownScenario { detached, conns, release_after_ms, waiters, server_workers })
+    (prop::bool::weighted(0.3), any::<bool>(), proptest::collection::vec(conn_state(), 1..=max), proptest::collection::vec(0u8..120, 8), 1u8..4, 1u8..5).prop_map(|(tls, detached, mut conns, release_after_ms, waiters, server_workers)| {
+        if tls {
+            for c in conns.iter_mut() {
+                match c {
+                    ConnState::InFlightStayer { h2, .. } | ConnState::InFlightLeaver { h2, .. } => *h2 = false,
+                    _ => {}
+                }
+            }
+        }
+        ShutdownScenario { tls, detached, conns, release_after_ms, waiters, server_workers }
+    })
 }
 
 #[derive(Debug)]
@@ -71,11 +82,16 @@ fn check_shutdown(rt: &tokio::runtime::Runtime, s: &ShutdownScenario, st: &mut S
             default_request_body_max_bytes: 1 << 20,
             ..Default::default()
         };
-        start_server(life_api(), LifeCtx::default(), cfg, None).map_err(|e| Failure::new("server-start", e))?
+        if s.tls {
+            crate::dynapi::start_server_tls(life_api(), LifeCtx::default(), cfg).map_err(|e| Failure::new("server-start", e))?
+        } else {
+            start_server(life_api(), LifeCtx::default(), cfg, None).map_err(|e| Failure::new("server-start", e))?
+        }
     };
     let addr = server.local_addr();
+    let tls = s.tls;
     let log = server.app_private().log.clone();
-    let desc = format!("mode {} conns {:?} release_after_ms {:?} waiters {}", if s.detached { "detached" } else { "cancel-on-disconnect" }, s.conns, s.release_after_ms, s.waiters);
+    let desc = format!("{}mode {} conns {:?} release_after_ms {:?} waiters {}", if s.tls { "https " } else { "" }, if s.detached { "detached" } else { "cancel-on-disconnect" }, s.conns, s.release_after_ms, s.waiters);
     let res: Result<(), Failure> = rt.block_on(async {
         // waiters taken before anything happens
         let mut waiter_tasks = vec![];
@@ -93,17 +109,17 @@ fn check_shutdown(rt: &tokio::runtime::Runtime, s: &ShutdownScenario, st: &mut S
                 match cs {
                     ConnState::InFlightStayer { h2, upload, drop_ctx } => {
                         let c = ClientSpec { kind: if upload { Kind::Upload } else { Kind::Hold }, proto: if h2 { Proto::H2DropConn } else { Proto::H1 }, point: Point::Never, rst: false, drop_ctx, start_delay_ms: 0 };
-                        let r = if h2 { run_h2(addr, l, c, id).await } else { run_h1(addr, l, c, id).await };
+                        let r = if h2 { run_h2(addr, l, c, id).await } else { run_h1_with(addr, tls, l, c, id).await };
                         r.map(Outcome::Client).unwrap_or_else(|f| Outcome::Error(f.msg))
                     }
                     ConnState::InFlightLeaver { h2, rst, drop_ctx } => {
                         let c = ClientSpec { kind: Kind::Hold, proto: if h2 { Proto::H2DropConn } else { Proto::H1 }, point: Point::WhileWaiting, rst, drop_ctx, start_delay_ms: 0 };
-                        let r = if h2 { run_h2(addr, l, c, id).await } else { run_h1(addr, l, c, id).await };
+                        let r = if h2 { run_h2(addr, l, c, id).await } else { run_h1_with(addr, tls, l, c, id).await };
                         r.map(Outcome::Client).unwrap_or_else(|f| Outcome::Error(f.msg))
                     }
                     ConnState::HalfReadResponse => {
                         use tokio::io::AsyncReadExt;
-                        let mut conn = match http1::Conn::connect(addr).await {
+                        let mut conn = match http1::Conn::connect_with(addr, tls).await {
                             Ok(c) => c,
                             Err(e) => return Outcome::Error(e.to_string()),
                         };
@@ -129,7 +145,7 @@ fn check_shutdown(rt: &tokio::runtime::Runtime, s: &ShutdownScenario, st: &mut S
                         }
                     }
                     ConnState::IdleKeepAlive => {
-                        let mut conn = match http1::Conn::connect(addr).await {
+                        let mut conn = match http1::Conn::connect_with(addr, tls).await {
                             Ok(c) => c,
                             Err(e) => return Outcome::Error(e.to_string()),
                         };
@@ -145,7 +161,7 @@ fn check_shutdown(rt: &tokio::runtime::Runtime, s: &ShutdownScenario, st: &mut S
                         Outcome::Idle
                     }
                     ConnState::HalfSentRequest { finish, then_ms } => {
-                        let mut conn = match http1::Conn::connect(addr).await {
+                        let mut conn = match http1::Conn::connect_with(addr, tls).await {
                             Ok(c) => c,
                             Err(e) => return Outcome::Error(e.to_string()),
                         };
@@ -225,6 +241,9 @@ fn check_shutdown(rt: &tokio::runtime::Runtime, s: &ShutdownScenario, st: &mut S
         let trace = || format!("{} :: events {:?} :: outcomes {:?}", desc, ev, outcomes);
         st.eval();
         st.count("scenarios");
+        if s.tls {
+            st.count("https_scenarios");
+        }
         // 4. same result everywhere
         for w in &waiter_results {
             ensure!(w == &close_result, "waiter-result-differs", "close() returned {:?}, a waiter got {:?}: {}", close_result, w, trace());
